@@ -454,6 +454,6 @@ Qed.
 Lemma start_needs_starting c s i s' : step c s (WExecStart i) = Some s' -> ph (nd s i) = PStarting /\ ph (nd s' i) = PExec.
 Proof.
   cbn [step]. destruct (ph (nd s i)) eqn:E; try discriminate. intros H. split; [reflexivity|].
-  destruct ((i <? nsteps c) && negb (dry c)); [|discriminate]. injection H as <-.
+  destruct ((i <? nsteps c) && negb (dry c) && negb (timedout s)); [|discriminate]. injection H as <-.
   unfold set_nd, upd. cbn [nd]. rewrite Nat.eqb_refl. reflexivity.
 Qed.
